@@ -102,6 +102,7 @@ func main() {
 			c.Info("%s", s)
 		}
 		run(p, c)
+		sqlClauseRules(p, c)
 		if c.Tier == "thorough" && os.Getenv("VERIF_REPO") == "" {
 			thoroughExtras(p, c)
 		}
